@@ -496,7 +496,7 @@ pub fn run(tier: &str, seed: u64, rep: &mut Report) {
     for c in &corpus {
         run_case(c, &mut net, rep);
     }
-    let n = if tier == "thorough" { 300_000 } else { 30_000 };
+    let n = if tier == "thorough" { 300_000 } else { 100_000 };
     for _ in 0..n {
         let c = gen_case(&mut rng);
         run_case(&c, &mut net, rep);
